@@ -202,7 +202,10 @@ def ctlWith (r : Rules) (s : Sys n) (c : Choice) : Sys n :=
   | .modify k after rest =>
     -- safe.WriterModify :337 = state.Modify (wrap.go:311): create if absent, else update in phase running
     let next : Pc n := if after then .addFin k rest else .inputs rest
-    if c.fail then { s with pc := next, errs := true }
+    -- a failing Modify (the transform function failed, a write inside it was refused, …) ends the pass with an error;
+    -- the only error that is skipped is a conflict on the mapped output itself (`Gen.Ctrl.conflictSkipQualified`:
+    -- with an unqualified test a conflict on ANY resource would be swallowed and the input never retried)
+    if c.fail then { s with pc := next, errs := Gen.Ctrl.conflictSkipQualified || s.errs }
     else
       match s.out k with
       | none =>
